@@ -6,6 +6,7 @@ import copy
 import datetime
 import decimal
 import json
+import os
 import random
 import uuid
 
@@ -29,8 +30,33 @@ def universe(profile: str):
     d = tlc.must(tlc.run("Terms_Defs", "Terms_Defs.cfg", workers=1), "Terms defs")
     defs = [p for p in d.printed if isinstance(p, dict) and "defs" in p][0]["defs"]
     types.sort(key=lambda t: json.dumps(t, sort_keys=True))
+    if profile == "full":
+        # beyond the exhaustive two layers: terms of three and four constructor layers from the type-builder
+        # state machine of spec/TermsSim.tla under `tlc -simulate` (seeded, so the sample is reproducible)
+        types = types + deep_types(int(os.environ.get("VERIF_SEED") or 0), DEEP_SAMPLE, {json.dumps(t, sort_keys=True) for t in types})
     _CACHE[profile] = (defs, types, res)
     return _CACHE[profile]
+
+
+DEEP_SAMPLE = 1500
+DEEP_INFO = {"simulated_deep_types": 0}
+
+
+def deep_types(seed: int, n: int, have: set) -> list:
+    sim = tlc.must(tlc.run("TermsSim", "TermsSim.cfg", workers=1, simulate="num=400", depth=5, seed=seed + 1, timeout=1800),
+                   "TermsSim simulation")
+    seen, out = set(have), []
+    for p in sim.printed:
+        if isinstance(p, dict) and "k" in p:
+            key = json.dumps(p, sort_keys=True)
+            if key not in seen:
+                seen.add(key)
+                out.append(p)
+    out.sort(key=lambda t: json.dumps(t, sort_keys=True))
+    rng = random.Random(seed)
+    out = rng.sample(out, min(n, len(out)))
+    DEEP_INFO["simulated_deep_types"] = len(out)
+    return out
 
 
 def make_env(defs):
